@@ -3,58 +3,21 @@
   type named by the line's tag (q = Rat, f = Float, c = Cx Float) and prints one canonical
   answer per line.  The output is diffed byte-wise with the Rust harness's impl-out.
 -/
-import Ohsl.Model.Wire
+import Ohsl.Driver.Cx
+import Ohsl.Driver.Mat
+import Ohsl.Driver.Solve
+import Ohsl.Driver.Vec
 namespace Ohsl
 
-section C13
-variable {K : Type} [Add K] [Sub K] [Mul K] [Neg K] [Zero K] [One K] [BEq K] [ScalarExt K] [Wire K]
-
-def cxAll (a b : Cx K) (r : K) : String :=
-  let w : Cx K → String := Wire.wr
-  let rs : List (Res (Cx K)) := [
-    pure (a + b), pure (a - b), pure (a * b), Cx.div a b,
-    pure (Cx.addAssign a b), pure (Cx.subAssign a b), pure (Cx.mulAssign a b), Cx.divAssign a b,
-    pure (Cx.addR a r), pure (Cx.subR a r), pure (Cx.mulR a r), Cx.divR a r,
-    pure (Cx.addAssignR a r), pure (Cx.subAssignR a r), pure (Cx.mulAssignR a r), Cx.divAssignR a r,
-    pure (-a), pure (Cx.conj a), pure (a + 0), pure (a * 1)]
-  let s := " ".intercalate (rs.map (wRes w))
-  s!"{s} {Wire.wr (Cx.absSqr a)} {wBool (a == b)} {Cx.cmp a b}"
-
-def execCx (op : String) : P (Option String) := do
-  match op with
-  | "cx_all" =>
-    let a : Cx K ← Wire.rd; let b : Cx K ← Wire.rd; let r : K ← Wire.rd
-    pure (some (cxAll a b r))
-  | "cx_ord" =>
-    let a : Cx K ← Wire.rd; let b : Cx K ← Wire.rd; let c : Cx K ← Wire.rd
-    pure (some s!"{Cx.cmp a b} {Cx.cmp b c} {Cx.cmp a c}")
-  | _ => pure none
-end C13
-
-/-- extra outputs of `cx_all` that exist only for `Complex<f64>` -/
-def cxAllF (a : Cx Float) (r : Float) : String :=
-  s!"{Wire.wr (Cx.mulR a r)} {Wire.wr (Cx.abs a)} {Wire.wr (Cx.arg a)}"
+def executors : List (String → P (Option String)) := [DrvCx.exec, DrvMat.exec, DrvSolve.exec, DrvVec.exec]
 
 def exec (op : String) : P String := do
-  match op with
-  | "cx_all" | "cx_ord" =>
-    let tag ← tok
-    if tag == "q" then
-      match (← execCx (K := Rat) op) with
-      | some s => pure s
-      | none => throw "?"
-    else
-      let saved ← get
-      match (← execCx (K := Float) op) with
-      | some s =>
-        if op == "cx_all" then
-          -- re-read a and r for the f64-only extras
-          set saved
-          let a : Cx Float ← Wire.rd; let _b : Cx Float ← Wire.rd; let r : Float ← Wire.rd
-          pure s!"{s} {cxAllF a r}"
-        else pure s
-      | none => throw "?"
-  | _ => throw s!"unknown op {op}"
+  for e in executors do
+    let saved ← get
+    match (← e op) with
+    | some s => return s
+    | none => set saved
+  throw s!"unknown op {op}"
 
 def handleLine (line : String) : String :=
   match line.trimAscii.toString.splitOn " " |>.filter (· ≠ "") with
